@@ -96,16 +96,17 @@ func params() []param {
 	}
 	// conics: six asymmetric standard-parallel pairs incl. 1SP and southern cones
 	// (index 6: one parallel away from the latitude of origin; index 7: +lat_2 omitted)
-	pairs := [][2]float64{{33, 45}, {45, 33}, {20, 60}, {-20, -50}, {40, 40}, {10, 30}, {50, 50}, {-35, -35}}
+	pairs := [][2]float64{{33, 45}, {45, 33}, {20, 60}, {-20, -50}, {40, 40}, {10, 30}, {50, 50}, {-35, -35}, {55, 75}}
 	for _, pr := range []string{"lcc", "aea", "eqdc"} {
 		for i, sp := range pairs {
 			region := "north"
 			if sp[0] < 0 {
 				region = "south"
 			}
-			lat0 := []float64{0, 38, -30, 23, 40, 5, 35, -20}[i]
-			lon0 := []float64{-96, 13.5, 100, 25, -96, 0, 10, -60}[i]
-			origin := []string{"+x_0=0 +y_0=0", "+x_0=400000 +y_0=400000", "+x_0=0 +y_0=0", "+x_0=1000000 +y_0=-500000", "", "+x_0=600000 +y_0=0", "+x_0=200000 +y_0=100000", "+x_0=0 +y_0=0"}[i]
+			// (index 8: a steep cone, n = 0.9: the cone angle n*(lon-lon_0) exceeds 90 degrees)
+			lat0 := []float64{0, 38, -30, 23, 40, 5, 35, -20, 60}[i]
+			lon0 := []float64{-96, 13.5, 100, 25, -96, 0, 10, -60, -100}[i]
+			origin := []string{"+x_0=0 +y_0=0", "+x_0=400000 +y_0=400000", "+x_0=0 +y_0=0", "+x_0=1000000 +y_0=-500000", "", "+x_0=600000 +y_0=0", "+x_0=200000 +y_0=100000", "+x_0=0 +y_0=0", "+x_0=0 +y_0=0"}[i]
 			if i == 7 {
 				p = append(p, param{pr, fmt.Sprintf("+proj=%s +lat_1=%g +lat_0=%g +lon_0=%g %s", pr, sp[0], lat0, lon0, origin), lon0, region})
 				continue
@@ -163,7 +164,7 @@ func positions(region string, lon0 float64) [][2]float64 {
 
 	case "north", "south":
 		lats := []float64{5, 20, 33, 40.5, 52, 65, 80}
-		for _, dl := range []float64{-60, -20, 0, 15, 50} {
+		for _, dl := range []float64{-150, -60, -20, 0, 15, 50, 110} {
 			for _, lat := range lats {
 				if region == "south" {
 					lat = -lat
